@@ -95,6 +95,15 @@ func runC01(r *core.Run) {
 		progs = append(progs, s)
 		id++
 	}
+	// programs that witness recorded (open) findings: a mismatch on exactly these is reported as
+	// KNOWN-FINDING, never as a violation; when they stop failing nothing is printed
+	kfFirst := id
+	kfIDs := []string{}
+	for _, k := range knownFindingPrograms(id) {
+		progs = append(progs, k.prog)
+		kfIDs = append(kfIDs, k.id)
+		id++
+	}
 	decidePrograms(r, "c01", progs, func(idx int, p *gen.Program, ref core.RefResult) {
 		o, _ := runGoat(p, true, false, nil)
 		if o.Budget {
@@ -102,6 +111,10 @@ func runC01(r *core.Run) {
 			return
 		}
 		if what := compareWithGo(ref, o); what != "" {
+			if idx >= kfFirst && idx-kfFirst < len(kfIDs) && r.Findings().Open(kfIDs[idx-kfFirst]) {
+				r.KnownFinding(kfIDs[idx-kfFirst])
+				return
+			}
 			r.Violate(core.Violation{Check: "c01", Index: idx, What: what, Case: progCase{p},
 				Expected: map[string]any{"stdout": ref.Out, "exit": ref.Exit, "stderr": ref.Stderr}, Observed: o, Extra: firstDiff(ref.Out, o.Out)})
 			return
